@@ -105,7 +105,7 @@ func (fr *Frame) qualifier() types.Qualifier {
 func (fr *Frame) visibleNames(loop *Loop) map[string]types.Type {
 	m := map[string]types.Type{}
 	var sig *types.Signature
-	if fr.fn != nil {
+	if fr.fn != nil && fr.fn.Blocks != nil {
 		sig = fr.fn.Signature
 		for _, p := range fr.fn.Params {
 			m[p.Name()] = p.Type()
